@@ -152,6 +152,46 @@ def disabled_restart_check(run, kind):
         a.stop()
 
 
+def crashed_worker_restart_check(run):
+    """an instance whose request worker died (a channel-info request for channel id == chmax trips an assertion in
+    the worker, on the unchanged library too) is revived by stop(); start(): it answers requests and streams its
+    first channel from the beginning again"""
+    import contextlib
+    import io
+    a = mk("default")
+    try:
+        a.start()
+        chmax = a._dummydev.data.chmax
+        with contextlib.redirect_stderr(io.StringIO()):
+            a.write(rc.req_chinfo(chmax))
+            t0 = time.time()
+            while a._thrd_recv.thread_is_alive() and time.time() - t0 < 1.0:
+                time.sleep(0.002)
+        died = not a._thrd_recv.thread_is_alive()
+        a.stop(); a.start()
+        a.write(rc.req_cmninfo())
+        got = None
+        t0 = time.time()
+        while got is None and time.time() - t0 < 1.5:
+            r = a.read()
+            fr = rc.accepts(r) if r else None
+            if fr and fr[0] == rc.ID_CMNINFO:
+                got = fr
+        ra = first_samples(a, 1) if got else None
+        fresh = mk("default"); fresh.start()
+        rf = first_samples(fresh, 1)
+        fresh.stop()
+        run.count("restart-after-worker-died", ("crashed-worker", died))
+        if got is None:
+            run.violation("after stop(); start() an instance whose request worker had died does not answer the common-info "
+                          "request", {"worker_died_before_restart": died})
+        elif ra != rf or not ra:
+            run.violation("after stop(); start() an instance whose request worker had died does not stream its sequence "
+                          "from the beginning", {"after_restart": ra, "fresh_instance": rf})
+    finally:
+        a.stop()
+
+
 def main(run):
     run.regen()
     run.prove()
@@ -164,6 +204,8 @@ def main(run):
     for kind in ("default", "custom"):
         if not run.violations:
             disabled_restart_check(run, kind)
+    if not run.violations:
+        crashed_worker_restart_check(run)
     rng = common.Rng(run.seed)
     rounds = 2 if not run.thorough else 12
     for ka, kb in (("default", "default"), ("default", "custom"), ("custom", "default"), ("custom", "custom")):
